@@ -14,6 +14,7 @@ from ..models import wheeltags as wt
 from ..monitor import bump, install, violation
 
 PROP = "C08"
+ANCHORS = ['dep_logic.tags.tags:EnvSpec._evaluate_python', 'dep_logic.tags.tags:EnvSpec.compatibility']
 RULE = ("requires_python pool built systematically: for every boundary (X,Y), X in {2,3}, Y in {0,1,9,10,11,20}: "
         "==X.Y.*, <X.Y, >=X.Y, <X.(Y+1), <=X.Y, >X.Y, !=X.Y.*, bounds inside the series (>=X.Y.3,<X.Y.5), ~=X.Y, plus "
         "unions/holes/empty/universal and seeded random shapes; x 4 implementation settings (unspecified, cpython, "
